@@ -255,6 +255,15 @@ func (b *builder) originIn(v ssa.Value, c *rctx, depth int) (*origin, string) {
 		if sc == nil || len(x.Call.Args) == 0 {
 			return nil, "a dynamic call"
 		}
+		// a formatting helper of the module with one return (formatInstant(t) = t.Format(timeFormat)): what it returns, with
+		// its parameters bound to the arguments here
+		if c != nil && b.rg != nil {
+			if kid := c.kids[x]; kid != nil {
+				if ret := singleReturn(sc); ret != nil && len(ret.Results) == 1 {
+					return b.originIn(ret.Results[0], kid, depth+1)
+				}
+			}
+		}
 		o, why := b.originIn(x.Call.Args[0], c, depth+1)
 		if o == nil {
 			return nil, why
@@ -1031,14 +1040,63 @@ func checkSessionCopy(r *Report, p *Prog) {
 			}
 		}
 	}
+	// ... or in a helper the maker hands the session to (the list built by a function of its own): the append lies on
+	// every path through the helper, and the helper's call on every successful path through its callers
+	if !okCustom {
+		for _, c := range rg.all {
+			if c == rg.top {
+				continue
+			}
+			for _, blk := range c.fn.Blocks {
+				for _, in := range blk.Instrs {
+					ap, ok := in.(*ssa.Call)
+					if !ok {
+						continue
+					}
+					if bi, ok := ap.Call.Value.(*ssa.Builtin); !ok || bi.Name() != "append" || len(ap.Call.Args) != 2 {
+						continue
+					}
+					whole := false
+					for _, o := range rg.Origins(RV{V: ap.Call.Args[1], C: c}) {
+						if f, elem, _ := sessionLeaf(o); f == "CustomAttributes" && !elem {
+							whole = true
+						} else {
+							whole = false
+							break
+						}
+					}
+					if !whole {
+						continue
+					}
+					if okG, _ := guardAt([]RB{{blk, c}}, false); !okG {
+						continue
+					}
+					always := dominatesEveryReturn(c.fn, blk)
+					for cc := c; always && cc.parent != nil; cc = cc.parent {
+						sb := cc.site.(ssa.Instruction).Block()
+						if cc.parent == rg.top {
+							always = dominatesAllReturns(cc.parent.fn, sb)
+						} else {
+							always = dominatesEveryReturn(cc.parent.fn, sb)
+						}
+					}
+					if always {
+						okCustom = true
+					}
+				}
+			}
+		}
+	}
 	r.Check(okCustom, rule, p.FnName(fn)+": custom attributes appended whole", p.Pos(fn.Pos()), "append(attributes, session.CustomAttributes...)", "session.CustomAttributes is not appended as a whole slice (unconditionally)")
 	// groups: a range loop appending one value per element unconditionally (the value literal may be built by a helper
 	// called from the loop body)
 	okGroups := false
 	for _, gs := range groupSites {
-		pos := rg.SiteIn(rg.top, gs.st)
+		// (the loop over the groups sits in the activation that reads them: the maker, or a helper it hands the session to)
+		lc := gs.leaf.C
+		pos := rg.SiteIn(lc, gs.st)
 		ld, ok := gs.leaf.V.(*ssa.UnOp)
-		if pos == nil || !ok || gs.leaf.C != rg.top {
+		if pos == nil || !ok {
 			continue
 		}
 		ia, ok := ld.X.(*ssa.IndexAddr)
@@ -1058,7 +1116,7 @@ func checkSessionCopy(r *Report, p *Prog) {
 			if st, ok := in.(*ssa.Store); ok {
 				if dst, ok := st.Addr.(*ssa.IndexAddr); ok && dst.Index == ia.Index {
 					if mk, ok := dst.X.(*ssa.MakeSlice); ok {
-						if la := lenArg(mk.Len); la != nil && rg.Ctx(a, rg.top).AP(la) == rg.Ctx(a, rg.top).AP(ia.X) {
+						if la := lenArg(mk.Len); la != nil && rg.Ctx(a, lc).AP(la) == rg.Ctx(a, lc).AP(ia.X) {
 							if okL, _ := unconditionalInLoopAt(st.Block(), &origin{elem: true, idx: ia.Index}); okL {
 								okGroups = true
 							}
@@ -1449,7 +1507,7 @@ var parsedCertField = regexp.MustCompile(`x509\.ParseCertificate#[^,]*#0\.`)
 // checkAnyCertificate: C07.any-certificate. The conditions of the returns of (xmlenc.RSA).Encrypt, with the unexported
 // error-returning helpers of the package inlined, mention the certificate argument only in type tests.
 func checkAnyCertificate(r *Report, p *Prog, rule string) {
-	fns := []*ssa.Function{p.MustFunc("xmlenc", "RSA", "Encrypt"), p.MustFunc("saml", "IdpAuthnRequest", "MakeAssertionEl")}
+	fns := []*ssa.Function{p.Worker("xmlenc", "RSA", "Encrypt"), p.MustFunc("saml", "IdpAuthnRequest", "MakeAssertionEl")}
 	if sel, _ := encCertSelector(p); sel != nil {
 		fns = append(fns, sel)
 	}
@@ -1483,4 +1541,18 @@ func checkAnyCertificate(r *Report, p *Prog, rule string) {
 	if n == 0 {
 		r.Undecided(rule, "returns of the encrypting functions", "-", "no return found")
 	}
+}
+
+// dominatesEveryReturn: b lies on every path to every return of fn.
+func dominatesEveryReturn(fn *ssa.Function, b *ssa.BasicBlock) bool {
+	n := 0
+	for _, blk := range fn.Blocks {
+		if _, ok := blk.Instrs[len(blk.Instrs)-1].(*ssa.Return); ok {
+			n++
+			if !(b == blk || b.Dominates(blk)) {
+				return false
+			}
+		}
+	}
+	return n > 0
 }
